@@ -5,6 +5,8 @@ func GenScenario(prop string, verifSeed uint64, run int) *Scenario {
 	switch prop {
 	case "C06":
 		return GenC06(verifSeed, run)
+	case "C07":
+		return GenC07(verifSeed, run)
 	case "C11":
 		return GenC11(verifSeed, run)
 	case "C12":
@@ -18,6 +20,8 @@ func RunScenario(rt *Runtime, sc *Scenario) RunResult {
 	switch sc.Property {
 	case "C06":
 		return RunC06(rt, sc)
+	case "C07":
+		return RunC07(rt, sc)
 	case "C11":
 		return RunC11(rt, sc)
 	case "C12":
